@@ -28,7 +28,7 @@ CONSTANTS
   Teams,          \* ids of the teams store
   Names,          \* values of the unique field `name` ("" allowed: refused by the index)
   Nicks,          \* values of the nullable unique field `nick` ("" allowed; NIL is added)
-  Roles,          \* elements of the set field `roles` ("" = a key the storage layer refuses)
+  Roles,          \* elements of the set field `roles` ("" = a key the storage layer refuses, "LONGR" = an over-long element: refused when the entity is written)
   Grades,         \* values of the child store's unique field `grade`
   BadNames,       \* names the storage layer refuses as index key (over-long) -- subset of Names
   BossMode,       \* wiring of people.boss -> people : off | idxNull | conNoneNull
@@ -48,6 +48,7 @@ PFields == {"name", "nick", "roles", "boss", "team", "teams"}   \* what a field 
 XFields == {"lead", "grade"}                                    \* ... and on the child part
 AllFields == PFields \cup XFields
 
+BadRoles == {"", "LONGR"}      \* role values some write of the call fails on
 NoVal(v) == v \in {NIL, ""}    \* nil and the empty string are both "no value" for an index (len(value) = 0)
 
 -----------------------------------------------------------------------------
@@ -96,7 +97,7 @@ SetUpd(sr, sk, old, new, id) ==
   ELSE [ sr   |-> [r \in DOMAIN sr |-> IF r \in new THEN sr[r] \cup {id}
                                         ELSE IF r \in old THEN sr[r] \ {id} ELSE sr[r]],
          sk   |-> ((sk \ {r \in old : sr[r] \ {id} = {}}) \cup {r \in old : sr[r] \ {id} # {}}) \cup new,
-         errs |-> IF "" \in (old \cup new) THEN {"storage"} ELSE {} ]
+         errs |-> IF (old \cup new) \cap BadRoles # {} THEN {"storage"} ELSE {} ]
 
 \* fkIndex / fkConstraint . ProcessAfterUpdate ; tgt = set of ids the reference may name
 FkUpd(back, kind, isCreate, old, new, id, nullable, tgt) ==
@@ -271,7 +272,7 @@ DeletePersonErrs(d, sysctx, id, veto) ==
               ELSE {}
   IN (IF refs # {} THEN {"refExists"} ELSE {})
      \cup (IF p.sys /\ ~sysctx THEN {"system"} ELSE {})
-     \cup (IF "" \in p.roles THEN {"storage"} ELSE {})
+     \cup (IF p.roles \cap BadRoles # {} THEN {"storage"} ELSE {})
      \cup (IF veto THEN {"veto"} ELSE {})
 
 \* (an Extended() child store also sees plain parents, with default child fields -- this is what the code does;
@@ -307,6 +308,16 @@ SortedBy(S, ordSeq) == LET F[k \in 0..Len(ordSeq)] ==
                              IF k = 0 THEN << >>
                              ELSE IF ordSeq[k] \in S THEN Append(F[k-1], ordSeq[k]) ELSE F[k-1]
                        IN F[Len(ordSeq)]
+
+\* DeleteWhere(query) through store `via`: the ids come from the query of *that* store -- a plain child store sees only
+\* entities with child data, and only it knows the child's own fields -- then DeleteById one after the other in id order;
+\* the first refusal ends the call.  pred = <<"all", "">> | <<"name", v>> | <<"grade", g>>
+Visible(d, via, id) == Present(d, id) /\ (via = "people" \/ HasExt(d, id) \/ ChildExtended)
+WhereMatch(d, pred, id) == CASE pred[1] = "all" -> TRUE
+                             [] pred[1] = "name" -> d.ent[id].name = pred[2]
+                             [] pred[1] = "grade" -> HasExt(d, id) /\ d.ext[id].grade = pred[2]
+DeleteWhereOp(d, sysctx, via, pred, idOrder) ==
+  CascadeDel(d, sysctx, SortedBy({id \in Ids : Visible(d, via, id) /\ WhereMatch(d, pred, id)}, idOrder), idOrder)
 
 DeleteTeamOp(d, sysctx, t, idOrder) ==
   IF t \notin d.tms THEN Res(d, {"notfound"}, << >>, NIL)
